@@ -597,6 +597,9 @@ def contains(interp, st, container, item, node=None):
     if isinstance(container, CSet):
         key = as_key(item, node)
         return container.contains(key)
+    if isinstance(container, V.SDict):
+        key = item if is_sym(item) else z3.StringVal(item)
+        return container.has(key)
     if isinstance(container, CDict):
         return container.has(as_key(item, node))
     if isinstance(container, dict):
